@@ -579,8 +579,11 @@ func (e *env) main(inClose, closeReturned *bool) {
 						e.initLookups[inst.ID] = map[string][]string{}
 					}
 					e.initLookups[inst.ID][tid] = got
-					if err != nil {
+					if err != nil && !inst.Tolerant {
 						return err
+					}
+					if err != nil {
+						ctx.Log("init-lookup-tolerated", inst.ID, tid)
 					}
 				}
 				return nil
